@@ -357,10 +357,14 @@ class TransactionManager(Elaboratable):
         # Transactions that are simultaneous and have ready dependency to an conditionally called method behave
         # like conditionally called -> add them to the set
         conditional_to_infect = list(ret)
+        infected_from = dict[Body, Body]()
         while conditional_to_infect:
             method = conditional_to_infect.pop()
             ready_dependent = {relation.end for relation in method.relations if relation.ready_dependent}
             for dep in method.simultaneous_list:
+                if infected_from.get(method) is dep:
+                    # the enclosing body, from which this nested transaction was reached
+                    continue
                 if dep in ready_dependent and dep in method_map.transactions:
                     # dep is simultaneous with conditionally called method - all called methods of dep are also
                     # conditionally called
@@ -369,6 +373,9 @@ class TransactionManager(Elaboratable):
                             ret.add(called_method)
                             conditional_to_infect.append(called_method)
                     ret.add(dep)
+                    # transactions nested in dep (a condition inside a branch) behave like conditionally called, too
+                    infected_from[dep] = method
+                    conditional_to_infect.append(dep)
                 else:
                     # dep is not ready dependent - semantics unclear
                     raise RuntimeError(
